@@ -22,6 +22,7 @@ func FuzzVerifC15CNIConf(f *testing.F) {
 		f.Add([]byte(`{"type":"terway"}`), args, s, s, s, s, s, s, s, uint8(1))
 	}
 	f.Fuzz(func(t *testing.T, stdin []byte, args, svc, podIP, podCIDR, gw, route, mac, ifName string, ipType uint8) {
+		defer g.FuzzGuard(t, "FuzzVerifC15CNIConf", stdin, args, svc, podIP, podCIDR, gw, route, mac, ifName, ipType)()
 		v6 := func(s string) g.Bytes { // the same text offered as the IPv6 member for odd types
 			if ipType&4 != 0 {
 				return g.Bytes(s)
